@@ -156,6 +156,10 @@ def NoNullKeys (ks : List Col) (T : Table) : Prop := ∀ r ∈ T, noNull (keyOf 
 def NoOverlap (lk rk : List Col) (L R : Table) : Prop :=
   ∀ l ∈ L, ∀ r ∈ R, ∀ c ∈ rcols l, c ∈ rcols r → c ∈ coalesced lk rk
 
+/-- two tables share no column name other than the common key columns `ks` -/
+def KeyOnlyOverlap (ks : List Col) (A B : Table) : Prop := ∀ c ∈ tcols A, c ∈ tcols B → c ∈ ks
+
+instance (ks : List Col) (A B : Table) : Decidable (KeyOnlyOverlap ks A B) := by unfold KeyOnlyOverlap; infer_instance
 instance (T : Table) : Decidable (RowsWF T) := by unfold RowsWF; infer_instance
 instance (ks : List Col) (T : Table) : Decidable (UniqueKeys ks T) := by unfold UniqueKeys; infer_instance
 instance (ks : List Col) (T : Table) : Decidable (NoNullKeys ks T) := by unfold NoNullKeys; infer_instance
